@@ -108,7 +108,10 @@ def oracle_newmark(case, R):
         refnl.append(((lambda uj, ujm1, hh, _r=ref, _s=scale: _s * _r(uj, ujm1, hh)), T[dyn]))
     if dct:
         ts.def_nonlin(dct)
-    sol = ts.tsolve(F, d0, v0)
+    Fh, lab_ = util.repack(F, case.get("fpack", "same"))
+    R.label("force:" + lab_)
+    sol = ts.tsolve(Fh, d0, v0)
+    R.check(np.array_equal(np.asarray(Fh, dtype=float), F), "tsolve_modifies_force", lab_)
     with np.errstate(all="ignore"):
         dr, vr, ar, zs = newmark_doc.newmark(M, B, K, h, F, d0, v0, rf, refnl)
     if not (np.all(np.isfinite(dr)) and np.all(np.isfinite(ar)) and np.abs(dr).max() < 1e100):
@@ -172,7 +175,7 @@ def newmark_cases(draw):
             "rf": draw(st.lists(st.integers(0, 4), max_size=2)) if draw(st.integers(0, 3)) == 0 else [],
             "ic": draw(st.booleans()), "icscale": draw(st.sampled_from([1.0, 0.01])),
             "mform": draw(st.sampled_from(["none", "vec", "mat"])), "bvec": draw(st.booleans()),
-            "kvec": draw(st.booleans()), "nonlin": nl}
+            "kvec": draw(st.booleans()), "nonlin": nl, "fpack": draw(st.sampled_from(util.PACKS))}
 
 
 # ---------------------------------------------------------------- CDF recurrence
@@ -227,7 +230,10 @@ def oracle_cdf(case, R):
         mv = np.ones(n)
     cls = ode.SolveCDF if case["cls"] == "SolveCDF" else (lambda *a, **k: ode.SolveUnc(*a, cd_as_force=True, **k))
     ts = cls(M_in, Bfull, kv, h, rb=rbpos if case["rb_given"] else None, order=order)
-    sol = ts.tsolve(F, d0 if case["ic"] else None, v0 if case["ic"] else None)
+    Fh, lab_ = util.repack(F, case.get("fpack", "same"))
+    R.label("force:" + lab_)
+    sol = ts.tsolve(Fh, d0 if case["ic"] else None, v0 if case["ic"] else None)
+    R.check(np.array_equal(np.asarray(Fh, dtype=float), F), "tsolve_modifies_force", lab_)
     R.label(f"order={order}", f"cls={case['cls']}", "cdforces" if ts.cdforces else "plain",
             "rb" if nrb else "norb", "offdiag" if np.any(Cod) else "diagonal")
     R.nontrivial(nt >= 5 and np.any(Cod))
@@ -269,7 +275,7 @@ def oracle_cdf(case, R):
     if not np.any(Cod):
         su = ode.SolveUnc(M_in, Bfull if case["bmat"] else np.diag(Bfull).copy(), kv, h,
                           rb=rbpos if case["rb_given"] else None, order=order)
-        s2 = su.tsolve(F, d0 if case["ic"] else None, v0 if case["ic"] else None)
+        s2 = su.tsolve(Fh, d0 if case["ic"] else None, v0 if case["ic"] else None)
         R.check(np.array_equal(sol.d, s2.d) and np.array_equal(sol.v, s2.v) and np.array_equal(sol.a, s2.a),
                 "cdf_diagonal_damping_not_identical_to_SolveUnc")
 
@@ -282,7 +288,7 @@ def cdf_cases(draw):
             "nrb": draw(st.integers(0, 2)), "ratio": draw(st.sampled_from([0.0, 0.0, 0.05, 0.2, 0.5])),
             "ic": draw(st.booleans()), "mform": draw(st.sampled_from(["none", "vec", "mat"])),
             "cls": draw(st.sampled_from(["SolveCDF", "SolveUnc"])), "rb_given": draw(st.booleans()),
-            "bmat": draw(st.booleans()), "perm": draw(st.booleans())}
+            "bmat": draw(st.booleans()), "perm": draw(st.booleans()), "fpack": draw(st.sampled_from(util.PACKS))}
 
 
 # ---------------------------------------------------------------- convergence and stability
